@@ -7,7 +7,7 @@ ids = [json.loads(l)["id"] for l in open(os.path.join(V, "properties.jsonl"))]
 
 TECH = {
  "C01": ("TLC: Head totality + Cursor.tla contract; TLC-generated vectors replayed with guard pages/alignments/backends in release and debug-assertion builds; cursor-operation traces validated by TLC (TraceOps)", "5 C01"),
- "C02": ("TLC action properties (absorbing, field/headers monotone) on Head; every generated prefix replayed, parent/child and suffix stability on the real results; per-byte feed traces validated by TLC", "5 C02"),
+ "C02": ("TLC action properties (absorbing, field/headers monotone) on Head; Parser.tla refinement on all buffers and their prefixes; every generated prefix replayed, parent/child and suffix stability on the real results; per-byte feed traces validated by TLC", "5 C02"),
  "C03": ("TLC invariant Framing (independent first-empty-line definition) on Head; vectors replayed, (verdict, n) compared", "5 C03"),
  "C04": ("TLC invariant Spans + Cursor.tla hand-out discipline; pointer-offset comparison of every returned slice against spec spans; Client.tla histories rendered to Rust programs and judged by rustc", "5 C04"),
  "C05": ("TLC invariant Hygiene on Head; all 256 byte values at every abstract state and lane replayed; observed fields judged with class tables exported from Bytes.tla", "5 C05"),
@@ -16,7 +16,7 @@ TECH = {
  "C08": ("TLC: Head == Ref on default header blocks; vectors (BYTE/EXT/LANE/LEN/LINES) replayed for hdrs/req/resp", "5 C08"),
  "C09": ("TLC: Head == Ref on chunk-size lines, exhaustive over a 14-symbol alphabet; CHUNK/DIGITS vectors replayed in release and debug-assertion builds", "5 C09"),
  "C10": ("TLC: error kind of Head == error kind of Ref (first offending element); Err-kind projection of BYTE/EXT/LINES vectors on the real parser", "5 C10"),
- "C11": ("TLC invariants HonestPartial (constructive completion witness) and DeferredClosed on every abstract state; witnesses replayed on the real parser for every Partial vector", "5 C11"),
+ "C11": ("Parser.tla refinement (no deferred decisions beyond the two stated); TLC invariants HonestPartial (constructive completion witness) and DeferredClosed on every abstract state; witnesses replayed on the real parser for every Partial vector", "5 C11"),
  "C12": ("TLC: SWAR borrow-chain / SSE / AVX2 / NEON lane models == ScanStop in Scan.tla; scanner results of every compiled backend recorded and validated by TLC (TraceScan)", "5 C12"),
  "C13": ("TLC: Build.tla exactly-one-provider over all switch combinations, Runtime.tla cold-start race; same vectors replayed under forced backends, build variants, profiles, alignments; race traces validated by TLC", "5 C13"),
  "C14": ("TLC: Head == Ref parameterised by the 16 header-option sets; option-specific seeds (NAME_WS, FOLD, IGN) extended and replayed", "5 C14"),
@@ -25,7 +25,7 @@ TECH = {
  "C17": ("TLC: capacity law on Head/Ref with caps 0,1,2,Inf; LINES vectors x capacities replayed with sentinel-filled arrays and canary slots, all entry points", "5 C17"),
  "C18": ("TLC: Session.tla history independence; call histories on one reused value recorded from the real code and validated by TLC (TraceSession)", "5 C18"),
  "C19": ("outcome coverage from the TLC skeleton; counting global allocator around every replayed call; no_std link test", "5 C19"),
- "C20": ("TLC: Cursor.tla forward-only contract; work counters on adversarial inputs up to 1 MiB and cursor-operation traces validated by TLC (TraceWork, TraceOps)", "5 C20"),
+ "C20": ("TLC: Cursor.tla forward-only contract; Parser.tla (algorithm at cursor-operation granularity) refines Head with travel <= len; work counters on adversarial inputs up to 1 MiB and cursor-operation traces validated by TLC (TraceWork, TraceOps)", "5 C20"),
 }
 LEVELTEXT = {
  "model_checking": "TLC checks the property on the TLA+ specification exhaustively within the stated bounds, and the specification is bound to the code in both directions: TLC-generated behaviours are replayed against the real parser and traces recorded from the real parser are validated by TLC. This decides the property for the design and gives bounded conformance evidence for the code.",
